@@ -149,6 +149,7 @@ EXTRA = [("open_limit", (1,)), ("open_limit", (2,)), ("open_limit", (3,)), ("ope
          ("alter_sarray", ("sarray", 1 << 61)), ("add_entry", ("newf", 7, 1, 0)), ("add_bit", ("newf", "raw", (1 << 31) - 1, 1, 0)),
          ("open_limit", ((1 << 62) + 1,)), ("alter_lincom", ("lincom", 1, "raw")), ("alter_lincom", ("carray", 0, "raw")),
          ("add_const", ("newf", 0x88, 0, 0)), ("constants", (0xfa0,)), ("alter_frameoffset64", (I63 - 1, 0, 0)),
+         ("add_entry", ("newf", 19, -1, 0)), ("add_sarray", ("newf", I64 - 1, 0)),
          ("alter_bit", ("bit", "!", 63, 64)), ("alter_bit", ("bit", "!", 0, 65)), ("alter_sbit", ("sbit", "!", 70, 70))]
 
 
@@ -239,13 +240,13 @@ def gen_sweep(ops, rng, per_op_random):
                 pools = [arg_pool(op, sig, k) for k in range(1, len(sig))]
                 prod = list(itertools.product(*pools))
                 lim = 60 if per_op_random <= 6 else 400
-                for t in (prod if len(prod) <= lim else rng.sample(prod, lim)):
+                for t in (prod if len(prod) <= lim else rng.sample(prod, min(len(prod), lim))):
                     prio.append((alt,) + tuple(t))
         if op.startswith("alter_") and sig and sig[0] == "s" and len(sig) > 2:
             for alt in AFFIXED:
                 pools = [arg_pool(op, sig, k) for k in range(1, len(sig))]
                 prod = list(itertools.product(*pools))
-                for t in (prod if len(prod) <= 20 else rng.sample(prod, 20 if per_op_random <= 6 else 100)):
+                for t in (prod if len(prod) <= 20 else rng.sample(prod, min(len(prod), 20 if per_op_random <= 6 else 100))):
                     tuples.append((alt,) + tuple(t))
         for _ in range(per_op_random):
             tuples.append(tuple(rng.choice(arg_pool(op, sig, k)) for k in range(len(sig))))
@@ -317,7 +318,7 @@ def crash_key(op, text, args=()):
         u = re.search(r"(\w+\.c):\d+:\d+: runtime error: (.*)", text)
         if u and "api.c" not in u.group(1):
             return "C10/ub/%s/%s" % ("index-out-of-bounds" if "out of bounds" in u.group(2) else re.sub(r"[^a-z]+", "-", u.group(2).lower())[:30], u.group(1))
-    return "C10/crash/%s/%s" % (kind.group(1) if kind else "abort-in-" + op, m.group(1) if m else "unknown")
+    return "C10/crash/%s/%s/%s" % (kind.group(1) if kind else "abort", m.group(1) if m else "unknown", op)
 
 
 def ub_key(op, line):
@@ -627,8 +628,8 @@ def main():
                 nm = rng.choice(["raw", "r16", "const", "nosuch"])
                 ff, fs = rng.choice([0, 1, 3, 60, I63 - 2]), rng.choice([0, 1, 5, I63 - 2, I63 - 1])
                 nf, ns = rng.choice([0, 1, 2]), rng.choice([0, 1, 5])
-                if fs >= I63 - 2:
-                    ns = 5         # stay where the range guards (not lseek) decide
+                if fs >= I63 - 2 or ff >= I63 - 2:
+                    ns = 5         # stay where the range guards (not lseek / _GD_DoSeek) decide
                 q = "call getdata %s %d %d %d %d 1" % (nm, ff, fs, nf, ns); cmd = "op getdata64 %s %d %d %d %d 1" % (nm, ff, fs, nf, ns)
             elif w < 0.85:
                 nm = rng.choice(["n1", "n2", "n3", "raw", "const"])
